@@ -315,6 +315,13 @@ func genExpmod(rng *rand.Rand, quick bool) []*expmodCase {
 		}
 		m := rnd()
 		mk("random", rnd(), rnd(), m)
+		if quick && w == 512 {
+			mk("b^1 mod m,b>m", max, bi(1), new(big.Int).Rsh(m, 9))
+			mk("modulus=2^w-1(all-ones)", bi(3), bi(200), max)
+			mk("0^0 mod 0", bi(0), bi(0), bi(0))
+			mk("b^e mod 1", rnd(), rnd(), bi(1))
+			continue
+		}
 		mk("random,odd-modulus", rnd(), rnd(), new(big.Int).Or(rnd(), bi(1)))
 		mk("0^0 mod 0", bi(0), bi(0), bi(0))
 		mk("0^0 mod 1", bi(0), bi(0), bi(1))
